@@ -19,7 +19,7 @@ from ..core.runner import Acc, guard, CaseTimeout, robust
 ID = 'C20'
 LEVEL = 'exploration'
 TECHNIQUE = 'bounded exhaustive program enumeration; graph edges vs generator terms and vs the all-branch read set of the real generated code over recording values'
-RULE = ('strata S1, S2, S4 (8 quick / 12 thorough RHS options), S3 up to 4 (quick) / 5 (thorough) nodes, specials; per equation: node + equation attribute, in-edges among '
+RULE = ('strata S1, S2, S4 (8 quick / 12 thorough RHS options), S3 up to 4 (quick) / 5 (thorough) nodes, specials (several left-hand-side terms, offsets >= 10); the graph judged is the one returned after an earlier result was taken apart; per equation: node + equation attribute, in-edges among '
         'variable-like nodes == generator terms == cells read on some branch outcome. non-trivial = accepted program with at least one edge; distinct by script text')
 ASSUMPTIONS = [
     '"actually read" = read on at least one branch outcome (conditional expressions read one branch)',
